@@ -52,7 +52,10 @@ def build(case):
     ns = dict(ns_base)
     for j, node in enumerate(case["deps"]):
         ns[f"D{j}"] = deps[node]
-    params = ", ".join(["x: str"] + [f"d{j}: Annotated[Any, D{j}]" for j in range(len(case["deps"]))] + (["**kw"] if case.get("collide") else []))
+    shape = case.get("shape", "pk")
+    dflt = " = 'default-not-a-provider-value'" if shape.endswith("d") else ""
+    params = ", ".join(["x: str"] + (["*"] if shape.startswith("kw") and case["deps"] else [])
+                       + [f"d{j}: Annotated[Any, D{j}]{dflt}" for j in range(len(case["deps"]))] + (["**kw"] if case.get("collide") else []))
     src = f"async def actor({params}):\n    log['got'] = [{', '.join(f'd{j}' for j in range(len(case['deps'])))}]\n    log['x'] = x\n    return 1\n"
     exec(compile(src, "<actor>", "exec", dont_inherit=True), ns)  # noqa: S102
     return ns["actor"], deps, log
@@ -132,7 +135,9 @@ def run(tier: str, seed: int, replay=None) -> int:
                     nk = rng.sample(hi, rng.randint(0, min(2, len(hi)))) if hi else []
                     ovs.append({"n": node, "tag": f"h{k}", "kids": nk, "sync": rng.random() < 0.3})
                 g = [{"tag": f"f{i + 1}", "kids": kids[i], "failing": failing == i + 1} for i in range(n)]
-                cases.append({"g": g, "deps": deps, "ovs": ovs, "sync": sync, "conv": rng.choice(["basic", "pydantic"])})
+                # (shape of the actor's dependency parameters: positional-or-keyword / keyword-only, without / with a default)
+                cases.append({"g": g, "deps": deps, "ovs": ovs, "sync": sync, "conv": rng.choice(["basic", "pydantic"]),
+                              "shape": rng.choice(["pk", "pk", "kw", "kwd", "pkd"])})
                 if rng.random() < 0.15:
                     # the payload carries a key named like a dependency parameter (actor with **kwargs): the invocation is
                     # refused, or the dependency parameter still receives its provider's value -- never the payload's
